@@ -125,16 +125,22 @@ def gen_mode_case(rng):
     return {"shape": shape, "n": n, "bins": [fx(b) for b in bins], "conf": fx(gen_conf(rng, sum(n)))}
 
 
+TIMEOUTS = [0]
+
+
 def run_find_mode(case):
-    """-> ["ok", value_hex, error_hex] | ["exn", name] | ["timeout"]"""
+    """-> ["ok", value_hex, error_hex] | ["exn", name] | ["timeout"] | ["skipped"] (after 6 calls that did not return)"""
     import qexpy.utils.utils as U
+    if TIMEOUTS[0] >= 6:
+        return ["skipped"]
     n = np.array(case["n"], dtype=np.int64)
     bins = np.array([float.fromhex(b) for b in case["bins"]])
     try:
-        with mc.time_limit(2.0):
+        with mc.time_limit(0.3):
             v, e = U.find_mode_and_uncertainty(n, bins, float.fromhex(case["conf"]))
         return ["ok", fx(v), fx(e)]
     except TimeoutError:
+        TIMEOUTS[0] += 1
         return ["timeout"]
     except Exception as ex:  # noqa
         return ["exn", type(ex).__name__]
@@ -374,6 +380,8 @@ def gen_history_case(rng, seed, corr_profile=False):
                 o = gen_op(rng, sess, case)
                 case["ops"].append(o)
                 obs.append(sess.step(o))
+                if obs[-1][0] == ["exn", "Timeout"]:      # the implementation does not return: the history ends here
+                    break
                 if o[0] in ("read_value", "read_error"):
                     why = why or sensitive_now(sess, exact_formula)
         finally:
@@ -417,8 +425,13 @@ def correspondence(ctx):
     # (i) direct tie of find_mode_and_uncertainty
     mode_cases = small_scope_mode_cases() + [gen_mode_case(rng) for _ in range(ctx.n(2000, 40000))]
     mode_obs = []
-    for c in mode_cases:
+    TIMEOUTS[0] = 0
+    for c in list(mode_cases):
         ob = run_find_mode(c)
+        if ob == ["skipped"]:
+            mode_cases.remove(c)
+            res.count("mode:skipped-after-timeouts")
+            continue
         mode_obs.append(ob)
         res.evaluations += 1
         res.count("mode:" + c["shape"] + (":conf=1" if float.fromhex(c["conf"]) == 1.0 else ""))
@@ -538,6 +551,8 @@ def check_mode_oracle(case):
     if not mc.threshold_agrees(float(conf), conf, sum(n)):
         return None
     ob = run_find_mode(case)
+    if ob[0] == "skipped":
+        return None
     if ob[0] == "timeout":
         return "find_mode_and_uncertainty does not return for counts {} and confidence {}".format(n, float(conf))
     if ob[0] == "exn":
@@ -613,7 +628,7 @@ def check_reported(sess, S):
     """value / error of the derived value against brute-force recomputation from the retrieved samples S"""
     r = sess.res
     try:
-        with mc.time_limit(5.0):
+        with mc.time_limit(0.75):
             v1, e1 = r.value, r.error
             v2, e2 = r.value, r.error
     except TimeoutError:
@@ -803,6 +818,7 @@ def search(ctx, suspects, budget):
         (todo_mode if c.get("kind") == "mode" else todo_hist).append(c["case"])
     n_mode = n_hist = 0
     seen = set()
+    TIMEOUTS[0] = 0
     # find_mode_and_uncertainty against brute force
     pool = small_scope_mode_cases()
     while True:
